@@ -36,6 +36,7 @@ enum Step {
     Q(MutQ),
     Tx(Vec<MutQ>, bool),
     Reopen,
+    Rename,
     Close,
 }
 
@@ -46,6 +47,7 @@ impl Step {
             Step::Tx(_, true) => "transaction_committed".into(),
             Step::Tx(_, false) => "transaction_rolled_back".into(),
             Step::Reopen => "close_and_reopen".into(),
+            Step::Rename => "rename".into(),
             Step::Close => "close".into(),
         }
     }
@@ -65,6 +67,10 @@ pub struct Recorded {
     /// dumps[i] = exact dump after step i-1 (dumps[0] = before step 0)
     dumps: Vec<Dump>,
     steps: Vec<Step>,
+    /// name of the data file at the end (after renames)
+    pub final_path: String,
+    /// indices of the calls before which the real files were copied to `<dir>/snaps/<k>.data|.wal`
+    pub snaps: Vec<usize>,
 }
 
 fn dump_any(any: &AnyDb) -> Result<Dump, String> {
@@ -77,6 +83,17 @@ pub fn record(kind: &str, path: &str, seed: u64, len: usize, bursts: bool) -> Re
     drop(open(kind, path).map_err(|e| format!("create: {e:?}"))?);
     let initial = crash::read_images(path);
     let rec = crash::install();
+    let dir = path.rfind('/').map(|i| &path[..i]).unwrap_or(".").to_string();
+    {
+        let snap_dir = format!("{dir}/snaps");
+        let _ = std::fs::create_dir_all(&snap_dir);
+        let mut r = rec.borrow_mut();
+        r.path = Some(path.to_string());
+        r.snap_dir = Some(snap_dir);
+        r.snap_stride = 37;
+    }
+    let mut cur = path.to_string();
+    let mut renames = 0;
     let mut any = open(kind, path).map_err(|e| format!("open: {e:?}"))?;
     let mut model = Model::default();
     let mut c = cfg();
@@ -90,7 +107,14 @@ pub fn record(kind: &str, path: &str, seed: u64, len: usize, bursts: bool) -> Re
         let r = g.rng.below(100);
         let step = if r < 8 {
             Step::Reopen
-        } else if r < 22 {
+        } else if r < 12 || i == 2 {
+            renames += 1;
+            let new = format!("{dir}/h_renamed_{renames}.agdb");
+            crate::hist_eng::cleanup(&new);
+            with_db!(&mut any, db, db.rename(&new)).map_err(|e| format!("rename: {e:?}"))?;
+            cur = new;
+            Step::Rename
+        } else if r < 24 {
             let k = 2 + g.rng.usize(4);
             let commit = g.rng.chance(2, 3);
             let mut scratch = model.clone();
@@ -130,7 +154,7 @@ pub fn record(kind: &str, path: &str, seed: u64, len: usize, bursts: bool) -> Re
         };
         if let Step::Reopen = step {
             drop(any);
-            any = open(kind, path).map_err(|e| format!("reopen: {e:?}"))?;
+            any = open(kind, &cur).map_err(|e| format!("reopen: {e:?}"))?;
         }
         let d = dump_any(&any)?;
         // keep the generator's model usable after rollbacks / failed queries
@@ -151,11 +175,14 @@ pub fn record(kind: &str, path: &str, seed: u64, len: usize, bursts: bool) -> Re
     let last = dumps.last().cloned().unwrap();
     dumps.push(last);
     let events = rec.borrow().events.clone();
+    let snaps = rec.borrow().snaps.clone();
     Ok(Recorded {
         initial,
         events,
         dumps,
         steps,
+        final_path: cur,
+        snaps,
     })
 }
 
@@ -166,8 +193,10 @@ impl CaseEngine for Crash {
         self.prop
     }
     fn rule(&self) -> String {
-        "generated histories of mutating queries, multi-query transactions (committed and rolled back) and close+reopen on Db and DbFile, \
-         recorded through the fs_event hooks; every prefix of the mutating file-system calls is materialised and reopened. C02: the \
+        "generated histories of mutating queries, multi-query transactions (committed and rolled back), rename and close+reopen on Db and \
+         DbFile, recorded through the fs_event hooks; every prefix of the mutating file-system calls is materialised and reopened; before \
+         every 37th call the real files are also copied as found under the database's current name, compared with the materialised images \
+         and, when they differ, put through the same oracle (what a restarted process would find). C02: the \
          snapshot opens with Db, DbFile, DbAny::new_file and DbAny::new_mapped without error or panic and the complete canonical dump \
          succeeds. C03: the exact canonical dump of the recovered database equals the dump before or after the interrupted step. \
          evaluations = crash points checked; distinct = distinct (interrupted step kind, call site, previous call site) classes"
@@ -177,7 +206,7 @@ impl CaseEngine for Crash {
         args.u64("n", if args.thorough() { 400 } else { 16 }) as usize
     }
     fn case_timeout_s(&self, _args: &Args) -> u64 {
-        1800
+        240
     }
     fn run_case(&self, args: &Args, case: usize, rep: &mut Report, progress: &dyn Fn(&str)) {
         let seed = derive(args.u64("seed", 1), &[tag("crash"), case as u64]);
@@ -204,7 +233,7 @@ impl CaseEngine for Crash {
         for l in &rec.events {
             crash::apply(&mut img, &l.ev);
         }
-        if crash::read_images(&path) != img {
+        if crash::read_images(&rec.final_path) != img {
             rep.coverage_fail
                 .push("shadow images differ from the real files: a mutating call bypassed the fs_event hooks".into());
             return;
@@ -234,7 +263,7 @@ impl CaseEngine for Crash {
             let site = rec.events.get(k).map(|l| l.ev.site).unwrap_or("end");
             let prev = if k > 0 { rec.events[k - 1].ev.site } else { "start" };
             let skind = rec.steps.get(step).map(|s| s.kind()).unwrap_or("close".into());
-            if k % stride == 0 || k == rec.events.len() {
+            if k % stride == 0 || k == rec.events.len() || skind == "rename" {
                 rep.eval();
                 rep.distinct_hash(tag(&format!("{skind}|{site}|{prev}")));
                 rep.count(&format!("crash_in_{skind}"));
@@ -243,9 +272,29 @@ impl CaseEngine for Crash {
                     "tier": args.str("tier", "quick"), "backend": kind, "crash_before_call": k, "call": rec.events.get(k).map(|l| crash::describe(&l.ev)),
                     "interrupted_step": format!("{:?}", rec.steps.get(step)), "step_index": step});
                 let variant = VARIANTS[k % VARIANTS.len()];
-                let variants: Vec<&str> = if self.prop == "C02" { vec!["mapped", variant] } else { vec!["mapped"] };
+                let mut variants: Vec<&str> = if self.prop == "C02" { vec!["mapped", variant] } else { vec!["mapped"] };
+                // the files as they really were on disk under the database's current name (what a restarted
+                // process would find), when the recorder copied them before this call
+                let real = if rec.snaps.contains(&k) {
+                    Some(crash::Images {
+                        data: std::fs::read(format!("{dir}/snaps/{k}.data")).unwrap_or_default(),
+                        wal: std::fs::read(format!("{dir}/snaps/{k}.wal")).unwrap_or_default(),
+                    })
+                } else {
+                    None
+                };
+                if let Some(real) = &real {
+                    rep.count("crash_points_on_copies_of_the_real_files");
+                    if *real != img {
+                        rep.count("real_files_differ_from_the_shadow_images");
+                        variants.push("real_files");
+                    }
+                }
                 for (vi, var) in variants.iter().enumerate() {
-                    let p = crash::write_images(&rdir, "r.agdb", &img);
+                    let on_real = *var == "real_files";
+                    let var = if on_real { &"mapped" } else { var };
+                    let vi = if on_real { 0 } else { vi };
+                    let p = crash::write_images(&rdir, "r.agdb", if on_real { real.as_ref().unwrap_or(&img) } else { &img });
                     let got = panicmon::catch(|| -> Result<Dump, (String, String)> {
                         let any = open(var, &p).map_err(|e| ("open_failed".to_string(), format!("{e:?}")))?;
                         dump_any(&any).map_err(|e| ("read_failed".to_string(), e))
@@ -308,7 +357,13 @@ impl CaseEngine for Crash {
     }
     fn finish(&self, args: &Args, rep: &mut Report) {
         rep.require("shadow_selfcheck_ok", 4);
-        for k in ["insert_nodes", "insert_edges", "insert_values", "remove", "insert_aliases", "transaction_committed", "transaction_rolled_back", "close_and_reopen", "close"] {
+        rep.require("crash_points_on_copies_of_the_real_files", 20);
+        if rep.counters.get("real_files_differ_from_the_shadow_images").copied().unwrap_or(0) > 0 && rep.violations_total == 0 {
+            rep.coverage_fail.push(
+                "the files on disk differed from the shadow images built from the fs_event hooks although recovery from them was correct: a mutating call bypassed the hooks".into(),
+            );
+        }
+        for k in ["insert_nodes", "insert_edges", "insert_values", "remove", "insert_aliases", "transaction_committed", "transaction_rolled_back", "close_and_reopen", "rename", "close"] {
             rep.require(&format!("crash_in_{k}"), 1);
         }
         rep.assumptions.push("crash granularity = one mutating file-system call; no OS write reordering; crash points inside the creation of the empty database are excluded".into());
